@@ -65,6 +65,11 @@ def cases(chk):
         if i % 2:
             script.append(["send", 2, "u", 1, r.randrange(70)])
         yield "script", {"accts": na, "groups": [list(range(1, na + 1))], "script": script, "faults": [], "restarts": [], "seed": r.randrange(1 << 30)}
+    # the smallest group: two members.  The sender's first message to it (a key request for ONE jid), damaged on its way, and later ones
+    for i in range(chk.scale(6, 100)):
+        script = [["send", 1 + i % 2, "g", 0, r.randrange(70)] for _i in range(1 + i % 3)]
+        yield "script", {"accts": 2 + (i // 2) % 2, "groups": [[1, 2]], "script": script, "faults": [[j, "corrupt"] for j in range(len(script)) if (i + j) % 2 == 0] or [[0, "corrupt"]],
+                         "restarts": [], "seed": r.randrange(1 << 30)}
     # a burst: two or three messages in a row from one sender to one recipient (or group), EACH damaged once — several retry requests are being
     # served at the same time (the key fetch of one is still unanswered when the next retry receipt arrives)
     for i in range(chk.scale(14, 300)):
@@ -117,6 +122,25 @@ def cases(chk):
             faults = [f for f in faults if f[0] < nth]
         restarts = [r.randint(1, na) for _i in range(r.choice([0, 0, 1, 2]))]
         yield "script", {"accts": na, "groups": groups, "script": script, "faults": faults, "restarts": restarts, "seed": r.randrange(1 << 30)}
+
+
+def _run_with_faults(w, r, fault_for, hist, limit=5000):
+    """the real system alone, any schedule to quiescence — the server's remaining faults (one damaged or duplicated copy per listed message) still happen"""
+    n = 0
+    while n < limit:
+        acts = w.srv.enabled()
+        if not acts:
+            return n
+        act = r.choice(acts)
+        fault = None
+        if act[0] == "deliver" and w.srv.outbound[act[1]]:
+            head = w.srv.outbound[act[1]][0][0]
+            if head.tag == "message" and head.getChild("enc") is not None and str(head["id"]).isdigit() and int(head["id"]) in fault_for:
+                fault = fault_for.pop(int(head["id"]))
+                hist.append("deliver %d %s" % (acct_of(act[1]), fault))
+        w.srv.fire(act, fault=fault)
+        n += 1
+    raise RuntimeError("server: no quiescence after %d actions" % limit)
 
 
 def nontrivial(stream, case):
@@ -368,13 +392,13 @@ def run_case(chk, stream, case):
             for item in script:
                 if item[0] == "wait":
                     try:
-                        w.srv.run(lambda acts: r.choice(acts), limit=5000)
+                        _run_with_faults(w, r, fault_for, hist)
                     except Exception:
                         pass
                     continue
                 if item[0] == "restart":
                     try:
-                        w.srv.run(lambda acts: r.choice(acts), limit=5000)
+                        _run_with_faults(w, r, fault_for, hist)
                     except Exception:
                         pass
                     w.clients[item[1]].restart()
@@ -391,7 +415,7 @@ def run_case(chk, stream, case):
                 w.clients[a].send_entity(ent)
                 hist.append("appSend %d %s %d %d" % (a, k, dst, mid))
             try:
-                w.srv.run(lambda acts: r.choice(acts), limit=5000)
+                _run_with_faults(w, r, fault_for, hist)
                 hist.append("… any schedule to quiescence")
             except RuntimeError:
                 hist.append("… (no quiescence)")
